@@ -22,6 +22,10 @@ GRIDS_LOG = [
     [0.001, 0.01, 0.1, 0.3, 0.5, 0.7, 0.9, 1.0],
     [0.0001, 0.001, 0.01, 0.05, 0.15, 0.35, 0.6, 0.85, 1.0],
     [0.005, 0.03, 0.12, 0.3, 0.55, 0.8, 1.0],
+    # small-x grids starting at a power of ten: repr() of such nodes is exponent-form with an integer
+    # mantissa ('1e-05'), the spelling that text formats are most likely to mangle
+    [1e-05, 0.001, 0.1, 0.5, 1.0],
+    [1e-07, 1e-05, 0.001, 0.05, 0.3, 1.0],
 ]
 GRIDS_LIN = [
     [0.1, 0.28, 0.46, 0.64, 0.82, 1.0],
@@ -126,7 +130,7 @@ def gen_settings(rng, max_pto=2, allow_n3lo=False, cheap=False):
     )
     # --- grid
     if rng.random() < 0.75:
-        grid = list(rng.choice(GRIDS_LOG[:2] if cheap else GRIDS_LOG))
+        grid = list(rng.choice(GRIDS_LOG[:2] + GRIDS_LOG[5:6] if cheap else GRIDS_LOG))
         ob["interpolation_is_log"] = True
     else:
         grid = list(rng.choice(GRIDS_LIN))
@@ -247,6 +251,9 @@ def gen_pools(rng, th, ob, nx=4, nq=4):
     xs = []
     # an exact grid node
     xs.append(rng.choice(inner))
+    if xmin < 1e-4 and rng.random() < 0.7:
+        # values whose repr is exponent-form: the first node itself and small multiples of it
+        xs.append(rng.choice([xmin, 5 * xmin, 2 * xmin, 1e-05 if xmin <= 1e-05 else xmin]))
     # off-node values
     cands = [0.11, 0.23, 0.35, 0.47, 0.62, 0.73, 0.5, 0.9, 0.15]
     cands = [c for c in cands if c > xmin * 1.5]
